@@ -276,9 +276,11 @@ def run(ctx):
     if replay:
         cases = [json.load(open(replay))["replay"]["case"]]
     else:
-        cases = [c["case"] for c in core.corpus_cases(ID)] + violation_relaxation_cases() + [gen_case(ctx.rng) for _ in range(ctx.n(12, 400))]
+        cases = [c["case"] for c in core.corpus_cases(ID)] + violation_relaxation_cases() + [c_ for c_ in c02.fixed_runs() if c_.get("aliases")] + [gen_case(ctx.rng) for _ in range(ctx.n(12, 400))]
     jobs = []
     for c in cases:
+        for i_, g_ in enumerate(c["goals"]):
+            g_.setdefault("fk", "g%d" % i_)
         out = c02.run_case(c)
         if "error" in out:
             ctx.count("run_rejected")
@@ -288,8 +290,10 @@ def run(ctx):
             ctx.count("run_failed_solve")
         if c.get("variant", "multi") == "multi":
             check_retained_minimisation(ctx, c, out["snaps"])
-            if out["ok"] and c.get("options", {}).get("violation_relaxation"):
+            if out["ok"] and (c.get("options", {}).get("violation_relaxation") or c.get("aliases")):
                 check_retained_targets(ctx, c, out)
+        if c.get("aliases"):
+            continue            # (the documented-subproblem builder below knows the plain goal functions only)
         for pi, snap in enumerate(out["snaps"]):
             stores = snap["stores_before"]
             try:
